@@ -38,6 +38,10 @@ type ProgOpts struct {
 	// FnInAtoms allows function expressions as arguments of body atoms / heads
 	FnInAtoms bool
 	NoRecursionThroughFn bool
+	// DoWildcards lets aggregating rules with multiplicity-insensitive reducers use wildcards for unused columns
+	DoWildcards bool
+	// Mix adds columns of sort "mix", whose domain holds hash-equal constants of different kinds
+	Mix bool
 }
 
 var sortDomain = map[string][]Val{
@@ -45,6 +49,8 @@ var sortDomain = map[string][]Val{
 	"name": {Name("/a"), Name("/b"), Name("/c"), Name("/d")},
 	"str":  {Str("x"), Str("y"), Str("z")},
 	"list": {ListV(), ListV(Num(1)), ListV(Num(1), Num(2)), ListV(Num(2))},
+	// distinct constants of different kinds with equal Hash(): 0 ~ 0.0, /a ~ "/a", 1.0 ~ its bit pattern as a number
+	"mix": {Num(0), Float(0), Num(1), Name("/a"), Str("/a"), Float(1.0), Num(4607182418800017408)},
 }
 
 func SortDomain(s string) []Val { return sortDomain[s] }
@@ -59,7 +65,7 @@ type ruleCtx struct {
 
 func (c *ruleCtx) fresh(sort string) string {
 	c.nvar++
-	n := fmt.Sprintf("%s%d", map[string]string{"num": "N", "name": "A", "str": "S", "list": "L"}[sort], c.nvar)
+	n := fmt.Sprintf("%s%d", map[string]string{"num": "N", "name": "A", "str": "S", "list": "L", "mix": "M"}[sort], c.nvar)
 	c.sorts[n] = sort
 	return n
 }
@@ -118,6 +124,9 @@ func RandProgram(r *rand.Rand, o ProgOpts) ProgramV {
 	sorts := []string{"num", "num", "name", "str"}
 	if o.Lists {
 		sorts = append(sorts, "list")
+	}
+	if o.Mix {
+		sorts = append(sorts, "mix", "mix")
 	}
 	nEDB := 2 + r.Intn(3)
 	for i := 0; i < nEDB; i++ {
@@ -256,7 +265,7 @@ func randRule(r *rand.Rand, o ProgOpts, p ProgramV, head PredSig, aggPreds map[s
 			b := c.boundOrConst("num", 50)
 			extras = append(extras, LitV{K: "atom", Pred: []string{":lt", ":le", ":gt", ":ge"}[r.Intn(4)], Args: []TermV{a, b}})
 		case x < 7:
-			s := []string{"num", "name", "str"}[r.Intn(3)]
+			s := []string{"num", "name", "str", "mix"}[r.Intn(4)]
 			if len(c.vars[s]) == 0 {
 				continue
 			}
@@ -464,7 +473,63 @@ func randDoRule(r *rand.Rand, o ProgOpts, p ProgramV, head PredSig, aggPreds map
 		}
 	}
 	cl := ClauseV{Head: headL, Body: body, Transforms: [][]StmtV{stmts}}
+	if o.DoWildcards && r.Intn(2) == 0 {
+		wildcardUnused(&cl)
+	}
 	return cl, true
+}
+
+// wildcardUnused replaces every variable that occurs exactly once in an aggregating rule (in a body
+// atom, nowhere else) by the wildcard, provided every reducer of the rule is insensitive to the
+// multiplicity of rows (min, max, collect_distinct): whether p(X,_) contributes one row per fact or
+// one row per distinct X is then immaterial.
+func wildcardUnused(cl *ClauseV) {
+	for _, st := range cl.Transforms {
+		for _, s := range st {
+			switch s.Fn.Name {
+			case "fn:group_by", "fn:min", "fn:max", "fn:collect_distinct":
+			default:
+				return
+			}
+		}
+	}
+	count := map[string]int{}
+	var walk func(t TermV)
+	walk = func(t TermV) {
+		if t.K == "var" {
+			count[t.Name]++
+		}
+		for _, a := range t.Args {
+			walk(a)
+		}
+	}
+	for _, a := range cl.Head.Args {
+		walk(a)
+	}
+	for _, l := range cl.Body {
+		for _, a := range l.Args {
+			walk(a)
+		}
+		if l.L != nil {
+			walk(*l.L)
+			walk(*l.R)
+		}
+	}
+	for _, st := range cl.Transforms {
+		for _, s := range st {
+			walk(s.Fn)
+		}
+	}
+	for bi, l := range cl.Body {
+		if l.K != "atom" || len(l.Pred) > 0 && l.Pred[0] == ':' {
+			continue
+		}
+		for ai, a := range l.Args {
+			if a.K == "var" && count[a.Name] == 1 {
+				cl.Body[bi].Args[ai] = VarT("_")
+			}
+		}
+	}
 }
 
 // RandKnotProgram builds a densely mutually recursive, negation-free program over
@@ -502,6 +567,36 @@ func RandKnotProgram(r *rand.Rand) ProgramV {
 			r.Shuffle(len(rules), func(a, b int) { rules[a], rules[b] = rules[b], rules[a] })
 		}
 		p.Rules = append(p.Rules, rules...)
+	}
+	return p
+}
+
+// RandNegKnotProgram builds a small program over unary predicates whose rules mention each other
+// positively and through negation in any direction, so that about half of them are not stratifiable.
+// Used to check that acceptance itself does not depend on the presentation of the program.
+func RandNegKnotProgram(r *rand.Rand) ProgramV {
+	var p ProgramV
+	p.Preds = append(p.Preds, PredSig{Name: "e0", Sorts: []string{"num"}})
+	for n := int64(0); n < int64(2+r.Intn(3)); n++ {
+		p.Facts = append(p.Facts, AtomV{P: "e0", Args: []Val{Num(n)}})
+	}
+	k := 2 + r.Intn(3)
+	for i := 0; i < k; i++ {
+		p.Preds = append(p.Preds, PredSig{Name: fmt.Sprintf("p%d", i), Sorts: []string{"num"}, IDB: true, Level: 1})
+	}
+	x := VarT("X")
+	lit := func(kind, name string) LitV { return LitV{K: kind, Pred: name, Args: []TermV{x}} }
+	for i := 0; i < k; i++ {
+		for j := 1 + r.Intn(2); j > 0; j-- {
+			c := ClauseV{Head: lit("atom", fmt.Sprintf("p%d", i)), Body: []LitV{lit("atom", "e0")}}
+			for n := r.Intn(3); n > 0; n-- {
+				c.Body = append(c.Body, lit("atom", fmt.Sprintf("p%d", r.Intn(k))))
+			}
+			if r.Intn(2) == 0 {
+				c.Body = append(c.Body, lit("neg", fmt.Sprintf("p%d", r.Intn(k))))
+			}
+			p.Rules = append(p.Rules, c)
+		}
 	}
 	return p
 }
